@@ -34,6 +34,9 @@ pub enum Corruption {
     RightChunkPaidKind,
     /// the other chunk's encoding behind the tag of record kind t (0..8)
     OtherChunkUnderTag(u8),
+    /// a chunk record whose body spells out the REQUESTED address next to the other chunk's bytes
+    /// (form 0: [hex string, bytes], 1: [bin, bytes], 2: [[array], bytes], 3: {address, value} with hex, 4: [bytes, hex])
+    OtherChunkClaimingAddress(u8),
 }
 
 #[derive(Clone, Debug, Serialize, Deserialize)]
@@ -48,7 +51,7 @@ pub struct ChunkCase {
 
 fn corruption() -> impl Strategy<Value = Corruption> {
     prop_oneof![4 => Just(Corruption::OtherChunk), 1 => Just(Corruption::WrongKind), 1 => Just(Corruption::Garbage), 1 => Just(Corruption::Truncated), 1 => Just(Corruption::OtherKey),
-        2 => Just(Corruption::OtherChunkPaidKind), 1 => Just(Corruption::RightChunkPaidKind), 2 => (0u8..8).prop_map(Corruption::OtherChunkUnderTag)]
+        2 => Just(Corruption::OtherChunkPaidKind), 1 => Just(Corruption::RightChunkPaidKind), 2 => (0u8..8).prop_map(Corruption::OtherChunkUnderTag), 2 => (0u8..5).prop_map(Corruption::OtherChunkClaimingAddress)]
 }
 
 fn chunk_strategy() -> BoxedStrategy<ChunkCase> {
@@ -184,6 +187,23 @@ fn perform_read_op(map: &HashMap<Vec<u8>, Chunk>, decoy: &Chunk, rop: ReadOp, co
                             Some(c) => fix::record(key.clone(), paid(c)),
                             None => fix::record(key.clone(), paid(decoy)),
                         },
+                        Corruption::OtherChunkClaimingAddress(form) => {
+                            let honest_name: [u8; 32] = map.get(&key.to_vec()).map(|c| c.name().0).unwrap_or([7u8; 32]);
+                            let plain = chunk_record(decoy).value;
+                            let body = rmp_serde::to_vec(&bytes::Bytes::copy_from_slice(decoy.value())).unwrap_or_default();
+                            let hexs = rmp_serde::to_vec(&hex::encode(honest_name)).unwrap_or_default();
+                            let bin = rmp_serde::to_vec(&bytes::Bytes::copy_from_slice(&honest_name)).unwrap_or_default();
+                            let arr = rmp_serde::to_vec(&honest_name).unwrap_or_default();
+                            let s = |t: &str| rmp_serde::to_vec(t).unwrap_or_default();
+                            let crafted = match form % 5 {
+                                0 => [vec![0x92], hexs, body].concat(),
+                                1 => [vec![0x92], bin, body].concat(),
+                                2 => [vec![0x92, 0x91], arr, body].concat(),
+                                3 => [vec![0x82], s("address"), hexs, s("value"), body].concat(),
+                                _ => [vec![0x92], body, hexs].concat(),
+                            };
+                            fix::record(key.clone(), [plain[..2.min(plain.len())].to_vec(), crafted].concat())
+                        }
                         Corruption::OtherChunkUnderTag(t) => {
                             let mut v = if t % 8 == 1 { paid(decoy) } else { chunk_record(decoy).value };
                             if v.len() > 1 {
